@@ -97,6 +97,17 @@ def int_of_prefix(e, s, l, what):
         raise GoPanic('runtime error: index out of range [%d] with length <%d (%s)' % (l - 1, l, what), 'bounds')
     if e.branch(s.len == z3.BitVecVal(l, 64)):
         return slice_int(e, s)
+    # longer than l: the first l bytes of the big-endian encoding of x are floor(x / 256^(len-l))
+    tag = e.heap[s.obj][1]
+    if isinstance(tag, tuple) and tag[0] == 'bigbytes' and tag[2] - l <= 2:
+        xv, W_, Lb = tag[1], tag[2], tag[3]
+        for j in range(1, W_ - l + 1):
+            if j == W_ - l or e.branch(Lb == z3.BitVecVal(l + j, 64)):
+                q = e.fresh_int('prefq')
+                r_ = e.fresh_int('prefr')
+                e.assume(z3.And(xv == q * (256 ** j) + r_, r_ >= 0, r_ < 256 ** j, q >= 0, q < 256 ** l))
+                e.big_bounds[id_of(q)] = (0, 256 ** l - 1, q)
+                return q, 0, 256 ** l - 1
     raise Unsupported('prefix of a longer symbolic-length slice')
 
 
